@@ -74,7 +74,16 @@ def make_spec(rng, keycols, nrow, extra=None):
     n = len(keycols[0])
     cols = []
     for j, vals in enumerate(keycols):
-        dtype = "int" if all(isinstance(v, int) or v is None for v in vals) and any(v is not None for v in vals) else "str"
+        nn = [v for v in vals if v is not None]
+        if nn and all(isinstance(v, bool) for v in nn):
+            dtype = "bool"
+        elif nn and all(isinstance(v, int) and not isinstance(v, bool) for v in nn):
+            dtype = "int"
+        elif nn and all(isinstance(v, (int, float)) and not isinstance(v, bool) for v in nn):
+            dtype = "float"
+            vals = [None if v is None else float(v) for v in vals]
+        else:
+            dtype = "str"
         cols.append({"name": f"N{j}", "dtype": dtype, "values": list(vals)})
     kj = len(cols)
     cols.append({"name": f"N{kj}", "dtype": "str", "values": [f"d{r}c{kj}" for r in range(n)]})
@@ -194,8 +203,12 @@ def check_spec(ctx, spec):
 def random_spec(rng):
     levels = rng.choice([1, 1, 2, 2, 3])
     n = rng.choice([rng.randint(1, 12), rng.randint(8, 60)])
-    intkeys = rng.random() < 0.3
-    pool = [[1, 2, 3, None], [10, 20, None]] if intkeys else [["a", "b", "c", None], ["x", "y", None]]
+    intkeys = rng.random() < 0.4
+    # numeric / boolean keys include the falsy values 0, 0.0 and False
+    kind = rng.choice(["int", "float", "bool"]) if intkeys else "str"
+    pool = {"int": [[0, 1, 2, 3, None], [0, 10, 20, None]], "float": [[0.0, 1.5, 2.0, None], [0.0, 2.5, None]],
+            "bool": [[False, True, None], [False, True, None]],
+            "str": [["a", "b", "c", None], ["x", "y", None]]}[kind]
     # contiguous hierarchical keys, possibly with nulls as group values
     keys = G.gen_group_keys(rng, n, levels, maxruns=rng.choice([2, 3, 5]), reuse_inner=True)
     ren: dict = {}
@@ -205,9 +218,16 @@ def random_spec(rng):
             parent = k[:lvl]
             used = ren.setdefault(parent, {})
             if k[lvl] not in used:
-                choices = [v for v in pool[min(lvl, 1)] + ([7, 8, 9] if intkeys else ["d", "e", "f"])
-                           if v not in used.values()]
-                used[k[lvl]] = rng.choice(choices) if choices else (len(used) + 100 if intkeys else f"z{len(used)}")
+                extra = {"int": [7, 8, 9], "float": [7.25, 8.5], "bool": [], "str": ["d", "e", "f"]}[kind]
+                choices = [v for v in pool[min(lvl, 1)] + extra if not any(v is u or (v == u and type(v) is type(u))
+                                                                         for u in used.values())]
+                if choices:
+                    used[k[lvl]] = rng.choice(choices)
+                elif kind == "bool":
+                    used[k[lvl]] = rng.choice([False, True])      # may make the keys non-contiguous: fine
+                else:
+                    used[k[lvl]] = (len(used) + 100) if kind == "int" else (len(used) + 100.5) if kind == "float" \
+                        else f"z{len(used)}"
             cols[lvl].append(used[k[lvl]])
     if rng.random() < 0.25 and n >= 3:
         # scramble -> usually non-contiguous
